@@ -163,6 +163,9 @@ func (xr *Reader) Read(buf []byte) (int, error) {
 	if xr.err != nil {
 		return 0, xr.err
 	}
+	if len(buf) == 0 {
+		return 0, nil // The decompressor never reports progress for an empty buffer
+	}
 
 	// Discard some data to reach the expected raw offset.
 	if xr.discard > 0 {
